@@ -436,3 +436,73 @@ fn _fill_signs(signs: &mut [i8], m: usize, n: usize, map: &LDLDataMap) {
         p += thisp;
     }
 }
+
+// verification-only hooks (see /verif); compiled only under the guard cfg
+#[cfg(oxfordcontrol_clarabel_rs_verif)]
+#[allow(missing_docs)]
+pub mod verif_hooks_ldlkkt {
+    //! A KKT solver around a caller-supplied LDL engine (the real constructor builds the engine
+    //! itself, which runs AMD), and read access to its KKT matrix, maps and sign vector.
+    use super::*;
+
+    /// Same as `DirectLDLKKTSolver::new` except that the LDL engine is built by the caller from
+    /// the assembled KKT matrix and sign vector (`make_engine`), and the triangle is given.
+    pub fn new_with_engine<T: FloatT>(
+        P: &CscMatrix<T>,
+        A: &CscMatrix<T>,
+        cones: &CompositeCone<T>,
+        m: usize,
+        n: usize,
+        triu: bool,
+        make_engine: impl FnOnce(&CscMatrix<T>, &[i8]) -> BoxedDirectLDLSolver<T>,
+    ) -> DirectLDLKKTSolver<T> {
+        let kktshape = if triu { MatrixTriangle::Triu } else { MatrixTriangle::Tril };
+        let (KKT, map) = assemble_kkt_matrix(P, A, cones, kktshape);
+        let p = map.sparse_maps.pdim();
+        let x = vec![T::zero(); n + m + p];
+        let b = vec![T::zero(); n + m + p];
+        let work1 = vec![T::zero(); n + m + p];
+        let work2 = vec![T::zero(); n + m + p];
+        let mut dsigns = vec![1_i8; n + m + p];
+        _fill_signs(&mut dsigns, m, n, &map);
+        let Hsblocks = allocate_kkt_Hsblocks::<T, T>(cones);
+        let diagonal_regularizer = T::zero();
+        let ldlsolver = make_engine(&KKT, &dsigns);
+        DirectLDLKKTSolver {
+            m,
+            n,
+            p,
+            x,
+            b,
+            work1,
+            work2,
+            map,
+            dsigns,
+            Hsblocks,
+            KKT,
+            ldlsolver,
+            diagonal_regularizer,
+        }
+    }
+    pub fn kkt<T: FloatT>(s: &DirectLDLKKTSolver<T>) -> &CscMatrix<T> {
+        &s.KKT
+    }
+    pub fn dsigns<T: FloatT>(s: &DirectLDLKKTSolver<T>) -> &[i8] {
+        &s.dsigns
+    }
+    pub fn map_P<T: FloatT>(s: &DirectLDLKKTSolver<T>) -> &[usize] {
+        &s.map.P
+    }
+    pub fn map_A<T: FloatT>(s: &DirectLDLKKTSolver<T>) -> &[usize] {
+        &s.map.A
+    }
+    pub fn map_diag_full<T: FloatT>(s: &DirectLDLKKTSolver<T>) -> &[usize] {
+        &s.map.diag_full
+    }
+    pub fn map_Hsblocks<T: FloatT>(s: &DirectLDLKKTSolver<T>) -> &[usize] {
+        &s.map.Hsblocks
+    }
+    pub fn diagonal_regularizer<T: FloatT>(s: &DirectLDLKKTSolver<T>) -> T {
+        s.diagonal_regularizer
+    }
+}
